@@ -410,10 +410,27 @@ func (b *bodyFaultRW) Write(ctx context.Context, r *Rpc) error {
 var censusBuf = make([]byte, 16<<20)
 
 func clCensus() (mux, loops int) {
+	mux, loops, _ = clCensusAll()
+	return
+}
+
+// clCensusAll also counts EVERY goroutine that has a frame of the library (root package or internal/..., not the harness
+// package github.com/avos-io/goat/verifharness) on its stack or as its creator: whatever a call starts - watchers, timers'
+// goroutines, writers - not only the two kinds the model knows.
+func clCensusAll() (mux, loops, lib int) {
 	n := runtime.Stack(censusBuf, true)
 	s := string(censusBuf[:n])
+	for _, g := range strings.Split(s, "\n\n") {
+		for _, line := range strings.Split(g, "\n") {
+			line = strings.TrimPrefix(line, "created by ")
+			if strings.HasPrefix(line, "github.com/avos-io/goat.") || strings.HasPrefix(line, "github.com/avos-io/goat/internal/") {
+				lib++
+				break
+			}
+		}
+	}
 	return strings.Count(s, "created by github.com/avos-io/goat/internal/client.NewRpcMultiplexer"),
-		strings.Count(s, "created by github.com/avos-io/goat/internal/client.NewStream")
+		strings.Count(s, "created by github.com/avos-io/goat/internal/client.NewStream"), lib
 }
 
 var longMDKinds = []string{"none", "none", "grpc-trace-id", "none", "ordinary", "space", "none", "upper", "nonascii", "none", "empty-key", "nul", "none", "nonprint",
@@ -571,6 +588,7 @@ func TestC14Long(t *testing.T) {
 	var samples []string
 	hist := map[string]int{}
 	maxInflight, idleSamples, maxSrv, srvLeaked, nbig := 0, 0, 0, 0, 0
+	var idleLib []string // goroutines with library frames at the idle points, in order
 	var recent, leakNotes []string
 	leaked := bubble(t, func(t *testing.T) {
 		l := NewLink(false)
@@ -641,6 +659,7 @@ func TestC14Long(t *testing.T) {
 				}
 			}
 		}
+		holdAny := func() bool { return false }
 		sctx, scancel := context.WithCancel(context.Background())
 		srv := newEchoServer("srv", g.echo())
 		go srv.Serve(sctx, l.S)
@@ -682,7 +701,11 @@ func TestC14Long(t *testing.T) {
 			reg := cc.VerifNumHandlers()
 			loops := -1
 			if !thorough() || step%4 == 0 || inflight == 0 {
-				_, loops = clCensus()
+				var lib int
+				_, loops, lib = clCensusAll()
+				if inflight == 0 && !holdAny() {
+					idleLib = append(idleLib, fmt.Sprint(lib))
+				}
 			}
 			// loops stays -1 when the census was not taken at this step: the checker skips the loop bound there
 			if inflight == 0 {
@@ -872,6 +895,15 @@ func TestC14Long(t *testing.T) {
 			rtags = []string{fmt.Sprintf("rpcs=%d", total), fmt.Sprintf("record=%d/%d", j+1, nrec)}
 		}
 		em.Emit(Rec{Idx: ci, Kind: "c14-long", Desc: desc, Tags: rtags, Coq: "C14Long " + coqList(samples[lo:hi])})
+	}
+	// the goroutines with library frames at the idle points (all RPCs over, their callers' contexts - none of which is ever
+	// cancelled for an RPC that ended by itself - still alive): never more than at the first idle point
+	if gi := chunkIdx(idx, 999); want(gi) && len(idleLib) > 0 {
+		if len(idleLib) > 4000 {
+			idleLib = append(idleLib[:2000:2000], idleLib[len(idleLib)-2000:]...)
+		}
+		em.Emit(Rec{Idx: gi, Kind: "c14-long-goroutines", Desc: map[string]any{"idle_points": len(idleLib)},
+			Tags: []string{fmt.Sprintf("rpcs=%d", total), "library-goroutines-at-idle-points"}, Coq: "C14Gor " + coqList(idleLib)})
 	}
 	em.Marker("end", idx)
 }
